@@ -1,4 +1,24 @@
+import itertools
+
+
 def groups(tier, seed):
     import probe_linops
-    skip = ("FFT_never",)
-    yield dict(name="C03 clauses on every operator variant (run-time)", bound=probe_linops.BOUND, cases=probe_linops.cases("C03", tier, seed))
+    yield dict(name="C03 clauses on every operator variant (run-time, incl. dense matrix expression of structural classes)", bound=probe_linops.BOUND,
+               cases=probe_linops.cases("C03", tier, seed))
+
+    def stack():
+        for which in ("_hstack_params", "_vstack_params"):
+            for rank in (1, 2, 3):
+                for axis in range(-rank, rank):
+                    for shapes in ([[2] * rank, [3] * rank], [[2] * rank, [2] * rank, [2] * rank], [[2] * rank]):
+                        yield dict(fn="linop.stack_params", args=dict(which=which, shapes=shapes, axis=axis))
+                        s2 = [list(s) for s in shapes]
+                        s2[-1][axis % rank] += 2
+                        yield dict(fn="linop.stack_params", args=dict(which=which, shapes=s2, axis=axis))
+    yield dict(name="_hstack_params/_vstack_params", bound="rank 1..3, every axis in [-rank, rank), 1..3 operands, compatible and incompatible", cases=stack())
+
+    def rej():
+        for kind in ("compose", "add", "apply"):
+            for a, b, c, d in itertools.product((2, 3), repeat=4):
+                yield dict(fn="linop.reject", args=dict(kind=kind, a=a, b=b, c=c, d=d))
+    yield dict(name="rejection of operands that do not fit", bound="extents in {2,3}", cases=rej())
